@@ -390,3 +390,41 @@ Proof.
   - vm_compute in He. congruence.
   - destruct (Hw 1%nat ltac:(lia)) as [Hs _]. vm_compute in Hs. congruence.
 Qed.
+
+(* ------------------------------------------------------------------ two independent signals: the ping comes first *)
+(* An authority whose endpoint answers is not gone, WHATEVER the pid probe says about the pid in meta.json (`live` is
+   universally quantified: a client in another pid namespace sees every pid of the authority's namespace as dead): the
+   poll returns Ok(endpoint) and leaves lock.json and meta.json alone.  For every table and every client state. *)
+Theorem client_answering_authority_untouched g live st p mp :
+  pi_meta p = MRec mp -> pi_reach p = true ->
+  po_act (client_poll g live st p) = AOk
+  /\ po_lock (client_poll g live st p) = pi_lock p
+  /\ po_meta (client_poll g live st p) = MRec mp.
+Proof.
+  intros Hm Hr. unfold client_poll.
+  assert (Hs : poll_seen p = SMeta) by (unfold poll_seen; rewrite Hm; reflexivity).
+  rewrite Hs. destruct (timer g (cs_since st) (pi_now p) SMeta) as [s1 fire]. rewrite Hm, Hr. cbn. auto.
+Qed.
+
+(* seeded change C18-7 ("probe the pid first, ping only when it is not Dead") = the loop with the ping answer ignored when
+   the probe says Dead *)
+Definition no_reach (p : pollin) : pollin :=
+  {| pi_now := pi_now p; pi_lock := pi_lock p; pi_meta := pi_meta p; pi_reach := false; pi_vanish := pi_vanish p |}.
+Definition client_poll_probe_first (g : gtable) (live : pid -> bool) (st : cstate) (p : pollin) : pollout :=
+  match pi_meta p with
+  | MRec mp => if live mp then client_poll g live st p else client_poll g live st (no_reach p)
+  | MAbsent => client_poll g live st p
+  end.
+(* authority 800 holds lock.json and meta.json and ANSWERS; the client cannot see pid 800 *)
+Definition answering_poll : pollin :=
+  {| pi_now := 0; pi_lock := Some {| lf_inst := 1; lf_owner := 800; lf_written := true |}; pi_meta := MRec 800;
+     pi_reach := true; pi_vanish := false |}.
+Definition other_namespace : pid -> bool := fun _ => false.
+Lemma client_probe_first_takes_answering_authority :
+  po_act (client_poll_probe_first full_table other_namespace cstate0 answering_poll) = AStale 800 true
+  /\ po_lock (client_poll_probe_first full_table other_namespace cstate0 answering_poll) = None
+  /\ po_meta (client_poll_probe_first full_table other_namespace cstate0 answering_poll) = MAbsent
+  /\ po_act (client_poll full_table other_namespace cstate0 answering_poll) = AOk.
+Proof. vm_compute. repeat split; reflexivity. Qed.
+Lemma answering_example : pi_meta answering_poll = MRec 800 /\ pi_reach answering_poll = true.
+Proof. split; reflexivity. Qed.
